@@ -394,4 +394,71 @@ theorem stack_conservation (ops : List SOp) (q : List Int) :
 theorem queueSys_excl : ∀ op, queueSys.mode op = .excl := fun _ => rfl
 theorem stackSys_excl : ∀ op, stackSys.mode op = .excl := fun _ => rfl
 
+/-! ### a bounded wrapped object (insertion into a full structure reports `full`) -/
+
+theorem boundedQueueSys_excl (cap : Nat) : ∀ op, (boundedQueueSys cap).mode op = .excl := fun _ => rfl
+theorem boundedStackSys_excl (cap : Nat) : ∀ op, (boundedStackSys cap).mode op = .excl := fun _ => rfl
+
+theorem bqueue_conservation (cap : Nat) (ops : List QOp) (q : List Int) :
+    okVals (seqRun (qApplyB cap) q ops).2 ++ (seqRun (qApplyB cap) q ops).1 =
+      q ++ acceptedQ ops (seqRun (qApplyB cap) q ops).2 := by
+  induction ops generalizing q with
+  | nil => simp [seqRun, okVals, acceptedQ]
+  | cons op ops ih =>
+    cases op with
+    | put v =>
+      by_cases h : q.length < cap
+      · simp [seqRun, qApplyB, h, okVals, acceptedQ, ih]
+      · simp [seqRun, qApplyB, h, okVals, acceptedQ, ih]
+    | offer v =>
+      by_cases h : q.length < cap
+      · simp [seqRun, qApplyB, h, okVals, acceptedQ, ih]
+      · simp [seqRun, qApplyB, h, okVals, acceptedQ, ih]
+    | take =>
+      cases q with
+      | nil => simpa [seqRun, qApplyB, okVals, acceptedQ] using ih []
+      | cons a t => simpa [seqRun, qApplyB, okVals, acceptedQ] using ih t
+    | poll =>
+      cases q with
+      | nil => simpa [seqRun, qApplyB, okVals, acceptedQ] using ih []
+      | cons a t => simpa [seqRun, qApplyB, okVals, acceptedQ] using ih t
+
+theorem bqueue_bound (cap : Nat) (ops : List QOp) (q : List Int) (hq : q.length ≤ cap) :
+    (seqRun (qApplyB cap) q ops).1.length ≤ cap := by
+  induction ops generalizing q with
+  | nil => simpa [seqRun] using hq
+  | cons op ops ih =>
+    cases op with
+    | put v =>
+      by_cases h : q.length < cap
+      · simp only [seqRun, qApplyB, h, if_true]; exact ih _ (by simp; omega)
+      · simp only [seqRun, qApplyB, h, if_false]; exact ih _ hq
+    | offer v =>
+      by_cases h : q.length < cap
+      · simp only [seqRun, qApplyB, h, if_true]; exact ih _ (by simp; omega)
+      · simp only [seqRun, qApplyB, h, if_false]; exact ih _ hq
+    | take =>
+      cases q with
+      | nil => simp only [seqRun, qApplyB]; exact ih _ (by simp)
+      | cons a t => simp only [seqRun, qApplyB]; exact ih _ (by simp at hq; omega)
+    | poll =>
+      cases q with
+      | nil => simp only [seqRun, qApplyB]; exact ih _ (by simp)
+      | cons a t => simp only [seqRun, qApplyB]; exact ih _ (by simp at hq; omega)
+
+theorem bstack_bound (cap : Nat) (ops : List SOp) (q : List Int) (hq : q.length ≤ cap) :
+    (seqRun (sApplyB cap) q ops).1.length ≤ cap := by
+  induction ops generalizing q with
+  | nil => simpa [seqRun] using hq
+  | cons op ops ih =>
+    cases op with
+    | push v =>
+      by_cases h : q.length < cap
+      · simp only [seqRun, sApplyB, h, if_true]; exact ih _ (by simp; omega)
+      · simp only [seqRun, sApplyB, h, if_false]; exact ih _ hq
+    | pop =>
+      cases hl : q.getLast? with
+      | none => simp only [seqRun, sApplyB, hl]; exact ih _ hq
+      | some a => simp only [seqRun, sApplyB, hl]; exact ih _ (by simp; omega)
+
 end FpgoVerif.C08
